@@ -237,3 +237,39 @@ def _contract(prev_kind):
 
 def conflicts_contract():
     return FnContract(Q, [_contract("absent"), _contract("none"), _contract("some")])
+
+
+def iter_all_parameters_contract():
+    """Endpoint.iter_all_parameters (assumed by the contract above, proved here): it yields, in this order, every path, query,
+    header and cookie parameter exactly once, each paired with its location -- for lists of any length."""
+    QI = "openapi_python_client.parser.openapi:Endpoint.iter_all_parameters"
+
+    def make(I):
+        from openapi_python_client.parser import openapi as M
+        Z = I.Z
+        seqs = {l: SSeq(z3.Const(f"{l}_parameters", z3.SeqSort(Z.JV)), None, []) for l in ("path", "query", "header", "cookie")}
+        ep = SObj(M.Endpoint, {f"{l}_parameters": s for l, s in seqs.items()})
+        return SFunc("pyfunc", M.Endpoint.iter_all_parameters, self_val=ep), [], {}, {"seqs": seqs}
+
+    def post(ctx):
+        from pyvc.symexec import SGenerated
+        from openapi_python_client import schema as oai
+        v = ctx.value
+        seqs = ctx.inputs["seqs"]
+        if not isinstance(v, SGenerated) or len(v.pieces) != 4:
+            return False
+        I = ctx.I
+        for piece, loc in zip(v.pieces, ("path", "query", "header", "cookie")):
+            if not isinstance(piece, SSeq) or not z3.eq(piece.base, seqs[loc].base) or len(piece.maps) != 1:
+                return False
+            x = SV(z3.Const("some_parameter", I.Z.JV))
+            img = piece.maps[0](x)
+            if not isinstance(img, STuple) or len(img.items) != 2 or img.items[0] is not getattr(oai.ParameterLocation, loc.upper()) \
+                    or img.items[1] is not x:
+                return False
+        return True
+
+    cl = Clause("every-parameter-once-with-its-location", post,
+                statement="the generator yields the element-wise images (location, parameter) of the path, query, header and cookie "
+                          "lists, in this order, nothing else")
+    return FnContract(QI, [Case("lists-of-any-length", make, [cl], raises=(), props=["C09", "C03", "C01"])])
